@@ -4,7 +4,7 @@
    of an alternative is in text order (one version clause, one architecture list, any number of profile
    groups, in any order). *)
 From Coq Require Import List Ascii String Bool Arith NArith Lia.
-Require Import A1 D3 D4 D5 D6 D14 D9 D10 D12 D13 D15 D16r D17r.
+Require Import A1 D3 D4 D5 D6 D14 D9 D10 D12 D13 D15 D16r D17r D18r.
 Import ListNotations.
 
 (* every field of the grammar, with blanks anywhere between tokens: leading blanks w0; relations
@@ -58,6 +58,27 @@ Theorem C04_reject_unterminated_version : forall name q cl, name <> [] -> forall
   parse (name ++ qual_text q ++ clauses_text cl ++ w ++ ch 40 :: op ++ rest) = Err.
 Proof. exact D17r.C04_reject_unterminated_version. Qed.
 Print Assumptions C04_reject_unterminated_version.
+(* mixed negation inside one architecture list; a bracket that is never closed; a substvar that is never closed *)
+Theorem C04_reject_mixed_negation : forall name q cl, name <> [] -> forallb namec name = true -> eqc (peek name) 36 = false ->
+  (match q with None => True | Some a => forallb mac (arch_string a) = true /\ parse_arch (arch_string a) = a end) ->
+  clauses_ok (base name q) cl -> cl <> [] -> p_archs (result name q cl) = Some {| a_not := false; a_list := [] |} ->
+  forall nt items w w0 T, all_ws w -> all_ws w0 -> items <> [] -> Forall (wf_archent nt) (map fst items) -> seps1 items ->
+  is_ws (peek T) = false -> eqc (peek T) 0 = false -> eqc (peek T) 93 = false -> T <> [] ->
+  Bool.eqb nt (eqc (peek T) 33) = false ->
+  parse (name ++ qual_text q ++ clauses_text cl ++ w ++ ch 91 :: w0 ++ items_text nt items ++ T) = Err.
+Proof. exact D18r.C04_reject_mixed_negation. Qed.
+Theorem C04_reject_unterminated_bracket : forall name q cl, name <> [] -> forallb namec name = true -> eqc (peek name) 36 = false ->
+  (match q with None => True | Some a => forallb mac (arch_string a) = true /\ parse_arch (arch_string a) = a end) ->
+  clauses_ok (base name q) cl -> cl <> [] -> p_archs (result name q cl) = Some {| a_not := false; a_list := [] |} ->
+  forall nt items w w0 tail, all_ws w -> all_ws w0 -> Forall (wf_archent nt) (map fst items) -> seps1 items ->
+  forallb archc tail = true ->
+  parse (name ++ qual_text q ++ clauses_text cl ++ w ++ ch 91 :: w0 ++ items_text nt items ++ tail) = Err.
+Proof. exact D18r.C04_reject_unterminated_bracket. Qed.
+Theorem C04_reject_unterminated_substvar : forall w nm, all_ws w -> forallb subc nm = true ->
+  parse (w ++ ch 36 :: ch 123 :: nm) = Err.
+Proof. exact D18r.C04_reject_unterminated_substvar. Qed.
+Print Assumptions C04_reject_mixed_negation.
+Print Assumptions C04_reject_unterminated_substvar.
 
 (* the other malformed classes as local facts, valid in every context: each scanner fails at the point of
    the defect (the tie's corruption stream exercises them through Parse) *)
